@@ -249,6 +249,61 @@ def check_sentinels(ctx, F):
             ctx.bad('R4', role, b.defpath, 'fresh range = %s but the test compares with %s' % (sent and sym.show(sent), [sym.show(x) for x in cmp_terms]), key=k2, loc=rules.loc(b))
 
 
+def check_ans_exhaustion_sees_head(ctx, F):
+    """An ANS decoder keeps the last words of the stream in its head (`state`), not in the backend: with whole words left in
+    the head and an empty backend it must still answer "not exhausted".  Rule: every `true` answer of AnsCoder's
+    Decode::maybe_exhausted implies that the head holds the empty sentinel -- the answer is is_empty() (verified against the
+    sentinel by the rule above), `state == sentinel`, or a conjunction with one of these."""
+    bs = [b for b in F.bodies if b.promoted is None and b.name == 'maybe_exhausted' and b.self_adt == ANS and (b.impl_trait or '').endswith('Decode')]
+    key = 'R4/exhaustion-sees-head/' + ANS
+    role = 'maybe_exhausted() answers true only when the head is empty'
+    if not bs:
+        ctx.bad('R4', role, ANS, 'Decode::maybe_exhausted of the ANS coder not found', key=key)
+        return
+    isem = c08.get_body(F, [ANS + '::<', '::is_empty'], 'is_empty')
+    st = ('in', (1, 'deref', ('f', 'state')))
+
+    def implies_empty(t):
+        t = peel(t)
+        if isinstance(t, tuple) and t and t[0] == 'call' and isem is not None and t[1] == isem.defpath:
+            return True
+        if isinstance(t, tuple) and t and t[0] == 'bin' and t[1].split('.')[0] == 'Eq' and st in (t[2], t[3]):
+            other = t[3] if t[2] == st else t[2]
+            return pow2._is_zero(peel(other)) or sym.show(peel(other)) in ('zero()', '0')
+        if isinstance(t, tuple) and t and t[0] == 'bin' and t[1].split('.')[0] in ('BitAnd', 'And'):
+            return implies_empty(t[2]) or implies_empty(t[3])
+        return False
+    for b in bs:
+        ctx.touch(b)
+        _, paths = rules.evaluate(b)
+        verdict = 'ok'
+        why = ''
+        for r in paths or []:
+            if r.end != 'return':
+                continue
+            t = r.ret
+            if sym.is_int(t) or (isinstance(t, tuple) and t and t[0] == 'bool'):
+                val = t[1]
+                if not val:
+                    continue
+                if any(v and implies_empty(p) for p, v, _ in r.preds):
+                    continue
+                verdict, why = 'bad', 'a path answers `true` without having tested the head'
+            elif implies_empty(t):
+                continue
+            elif not sym.contains(t, lambda x: x == st or (isinstance(x, tuple) and x and x[0] == 'call' and isem is not None and x[1] == isem.defpath)) \
+                    and not any(sym.contains(p, lambda x: x == st) for p, v, _ in r.preds):
+                verdict, why = 'bad', 'the answer is %s: it does not look at the head, which holds the last one or more words of the stream after the backend has run empty, so a decoder with whole words left claims that it may be exhausted' % sym.show(t)[:80]
+            elif verdict == 'ok':
+                verdict, why = 'unresolved', 'answer %s mentions the head in a form the rule does not read' % sym.show(t)[:80]
+        if verdict == 'bad':
+            ctx.bad('R4', role, b.defpath, why, key=key, loc=rules.loc(b))
+        elif verdict == 'unresolved':
+            ctx.unresolved('R4', role, b.defpath, why, key=key)
+        else:
+            ctx.ok('R4', role, b.defpath, 'the answer is the emptiness test of the head', key=key)
+
+
 class _NoModel(Exception):
     pass
 
@@ -613,6 +668,88 @@ def check_diagnostics(ctx, F):
         ctx.notes.append('fewer diagnostic overrides than on the reference tree (%d); not an alarm' % n_over)
 
 
+DIRECTION = {   # method -> (distribution the expectation is taken under, distribution(s) whose log appears)
+    'entropy_base2': ('self', {'self'}),
+    'cross_entropy_base2': ('p', {'self'}),
+    'reverse_cross_entropy_base2': ('self', {'p'}),
+    'kl_divergence_base2': ('p', {'p', 'self'}),
+    'reverse_kl_divergence_base2': ('self', {'p', 'self'}),
+}
+
+
+def check_diagnostic_directions(ctx, F):
+    """The provided information-theoretic diagnostics follow their textbook definitions in *direction*: the expectation of
+    H(p, self) and D_KL(p || self) is taken under the argument p, that of the `reverse_` forms and of the entropy under the
+    model itself, and the logarithms are those of the other distribution (both for the divergences).  Read from the
+    summand closure `weight * log-part`; a diagnostic that is defined through its siblings may only use siblings of its own
+    direction (or the direction-free entropy)."""
+    TR = 'stream::model::IterableEntropyModel'
+    for name, (want_w, want_logs) in DIRECTION.items():
+        key = 'R4/diagnostic-direction/' + name
+        role = '%s weights by %s and takes the logarithm of %s' % (name, want_w, ' and '.join(sorted(want_logs)))
+        bs = [x for x in F.bodies if x.promoted is None and x.name == name and x.trait == TR and x.impl is None]
+        if not bs:
+            ctx.unresolved('R4', role, TR, 'provided method not found', key=key)
+            continue
+        b = bs[0]
+        ctx.touch(b)
+
+        def who(t):
+            # which distribution does a leaf of the summand come from?  item = ((symbol, left, probability), p)  or  (symbol, left, probability)
+            out = set()
+            for x in sym.subterms(t):
+                if isinstance(x, tuple) and x and x[0] == 'in' and x[1][0] == 2:
+                    fs = [q[1] for q in x[1][1:] if isinstance(q, tuple) and q[0] == 'f']
+                    if fs[:1] == ['1']:
+                        out.add('p')
+                    elif fs[-1:] == ['2']:
+                        out.add('self')
+            return out
+        verdict = None
+        n_sum = 0
+        for cb in F.closures_of(b):
+            _, cp = rules.evaluate(cb)
+            for r in cp or []:
+                t = r.ret
+                if r.end != 'return' or t is None or not (t[0] == 'bin' and t[1].split('.')[0] == 'Mul'):
+                    continue
+                has_log = lambda y: sym.contains(y, lambda z: isinstance(z, tuple) and z and z[0] == 'call' and str(z[1]).endswith('::log2'))
+                fa, fb = t[2], t[3]
+                if has_log(fa) == has_log(fb):
+                    continue
+                logp, weight = (fa, fb) if has_log(fa) else (fb, fa)
+                n_sum += 1
+                w = who(weight)
+                logs = set()
+                for z in sym.subterms(logp):
+                    if isinstance(z, tuple) and z and z[0] == 'call' and str(z[1]).endswith('::log2'):
+                        logs |= who(z[2][0])
+                if w != {want_w} or logs != want_logs:
+                    verdict = 'the summand weights by %s and takes the logarithm of %s' % (sorted(w), sorted(logs))
+        if n_sum == 0:
+            # defined through siblings?
+            _, paths = rules.evaluate(b)
+            used = set()
+            for r in paths or []:
+                for e in r.events:
+                    if e['kind'] == 'call' and e['name'] in DIRECTION and e['name'] != name:
+                        used.add(e['name'])
+            if not used:
+                ctx.unresolved('R4', role, b.defpath, 'no `weight * log` summand and no sibling diagnostic found', key=key)
+                continue
+            wrong = [u for u in used if DIRECTION[u][0] != want_w and u != 'entropy_base2']
+            if wrong:
+                ctx.bad('R4', role, b.defpath, 'it is computed from %s, which takes its expectation under %s: the result is a different quantity (it still vanishes when p equals the model, so a sanity check with identical distributions passes)' % (
+                    ', '.join(sorted(wrong)), DIRECTION[wrong[0]][0]), key=key, loc=rules.loc(b))
+            else:
+                ctx.ok('R4', role, b.defpath, 'defined through %s (same direction)' % ', '.join(sorted(used)), key=key)
+            continue
+        if verdict:
+            ctx.bad('R4', role, b.defpath, verdict, key=key, loc=rules.loc(b))
+        else:
+            ctx.ok('R4', role, b.defpath, '%d summand(s): weight from %s, logarithm of %s' % (n_sum, want_w, ' and '.join(sorted(want_logs))), key=key)
+
+
 def _is_forward(o, trait, name):
     _, paths = rules.evaluate(o)
     r = only_return(paths)
@@ -628,12 +765,14 @@ def run(ctx):
     check_range_sizes(ctx, F)
     c08.check_encoder_guard(ctx, F)      # seal() writes num_seal_words() words; frame of seal (shared with C08)
     check_sentinels(ctx, F)
+    check_ans_exhaustion_sees_head(ctx, F)
     check_bit_coder_sentinel(ctx, F)
     check_exhaustion_tolerance(ctx, F)
     check_valid_bits(ctx, F)
     import props.C16 as c16
     c16.check_queue_exhaustion(ctx, F)
     check_diagnostics(ctx, F)
+    check_diagnostic_directions(ctx, F)
     ctx.assume('remaining() of the backend is exact (C17 for the provided backends)')
     ctx.assume('ExactSizeIterator::len of bit_array_to_chunks_truncated equals the number of items it yields (std contract of Range/StepBy/Rev/Map)')
     return {
